@@ -20,6 +20,7 @@ RULE = ("curve part: DiffusionCurve on a built-in mixture (loading looks mixture
         "re-loaded in both storage modes; history part (stateful): 2..6 operations {save model i safe/unsafe, forced directory-name collision, "
         "load-and-compare} under ONE membrane directory with directly constructed ProcessModels (values 1e-9..1e3, permeances in any unit, "
         "None condensation heat), after every operation every earlier process_* directory must be byte-identical (SHA-256). "
+        "Also: files saved over an earlier file of the same name and loaded again; one file holding two curves (vacuum curve first or last). "
         "non-trivial = >= 2 points/steps with a non-None permeate condition, or a history with >= 2 successful saves; distinct = SHA-1 of the case JSON")
 ASSUMPTIONS = ["numeric fields compared to 1e-9 relative as the property states (pandas' float parser is not round-trip exact)",
                "None <-> NaN/None for optional fields; `comments` strings are not compared", "a save that raises (name collision) is acceptable; writing into an existing directory is not"]
